@@ -1,0 +1,24 @@
+//go:build verif
+
+// Contracts for deductive verification (comment-only; no declarations). Checked by
+// /verif/govc against the code of this package on every run. See /verif/DESIGN.md.
+
+package uuid
+
+// NewV4 (C18): version 4, variant 1, every other bit comes unchanged from crypto/rand.Read.
+// randByte(i) names the i-th byte produced by the Read call of this execution.
+//@ func NewV4() (u *UUID)
+//@   fresh [C18] u
+//@   ensures [C18] version: u[6] / 16 == 4
+//@   ensures [C18] variant: u[8] / 64 == 2
+//@   ensures [C18] free6: u[6] % 16 == randByte(6) % 16
+//@   ensures [C18] free8: u[8] % 64 == randByte(8) % 64
+//@   ensures [C18] rest: forall i int :: 0 <= i && i < 16 && i != 6 && i != 8 ==> u[i] == randByte(i)
+
+// String (C18): canonical 8-4-4-4-12 lower-case hex of the 16 bytes. The body is a single fmt.Sprintf call whose
+// format literal and slice bounds are checked by a schema obligation; uuidStr names the rendering.
+//@ ghost func uuidStr(u UUID) string
+//@ func (u *UUID) String() (result string)
+//@   trusted
+//@   assigns nothing
+//@   ensures result == uuidStr(*u)
